@@ -29,7 +29,7 @@ cd {wt}
 cmake -G Ninja -S . -B _build -DCMAKE_BUILD_TYPE=RelWithDebInfo -DPHOTON_BUILD_TESTING=ON -DPHOTON_ENABLE_LIBCURL=ON -DPHOTON_GLOBAL_INIT_OPENSSL=ON -DPHOTON_CXX_STANDARD=14
 ninja -C _build -j12
 ```
-Run the existing suite (about 4 minutes): `ctest --test-dir _build -j8 --timeout 900`.
+Run the existing suite (about 4 minutes) ALWAYS through the machine-wide lock, because the tests use fixed directories and ports and two suite runs at once make each other fail: `flock /tmp/mut/ctest.lock ctest --test-dir _build -j8 --timeout 900` (the same for single-test re-runs: `flock /tmp/mut/ctest.lock ctest --test-dir _build -R <name>`). Waiting for the lock can take a while; that is expected.
 On the UNCHANGED tree exactly these 7 ctest entries fail in this sandbox (no network, no io_uring) and may be ignored: test-checksum, test-throttle, test-iouring, test-socket, test-ipv6, client_function_test, test-rpc-message. Everything else must still pass with your change (run the full suite at least once per final change; some tests are timing-sensitive under load — if an unrelated test fails once, re-run it alone with `ctest --test-dir _build -R <name>` before concluding). The sandbox has no network; nothing can be downloaded.
 
 Your demonstration programs can link against `_build/output/libphoton.a` or `libphoton.so` (include path: `{wt}/include`; see how the tests under `*/test/CMakeLists.txt` are built; gtest/gflags are installed system-wide), or can be small standalone programs compiled with g++ directly, e.g.
